@@ -128,9 +128,23 @@ def lowerE (cs : Bool) (c : SCtx) (e : Expr) : EOut :=
 def storeIns (t : CSem.Ty) (v : Val) (slot : Nat) : Item :=
   .ins (.op none (.store (storeOf t)) [v, .tmp (tmpName slot)])
 
-/-- `funcalloc(f, d)` for an object of integer type `t` (alignment = size). -/
-def allocIns (t : CSem.Ty) (slot : Nat) : Item :=
-  .ins (.op (some (tmpName slot, .l)) (.alloc (if t.size = 8 then 8 else 4)) [.int (UInt64.ofNat t.size)])
+/-- `funcalloc(f, d)` for an object of integer type `d.1` or an array of `d.2` such elements (alignment =
+    size of the element). -/
+def allocIns (d : CSem.Ty × Nat) (slot : Nat) : Item :=
+  .ins (.op (some (tmpName slot, .l)) (.alloc (if d.1.size = 8 then 8 else 4))
+    [.int (UInt64.ofNat (d.1.size * d.2))])
+
+/-- The byte offset of `a[idx]` as the parser builds it (`mkbinaryexpr`, `TADD` on a pointer:
+    `(unsigned long)idx * sizeof *a`; `exprconvert` inserts no cast between equal types; nothing is
+    folded). -/
+def offOf (t : CSem.Ty) (idx : Expr) : Expr :=
+  .bin .mul .ulong (if idx.ty = .ulong then idx else .cast .ulong idx) (.const .ulong t.size)
+
+/-- The address of `a[idx]` (`a` in the slot `%.slot`): `&a` itself emits nothing, then the offset, then
+    `add`. -/
+def lowerAddr (cs : Bool) (σ : List Nat) (c : Ctx) (slot : Nat) (t : CSem.Ty) (idx : Expr) : Out :=
+  let o := funcexpr2 cs σ (offOf t idx) c
+  o.seq (funcinst o.ctx .add .l [.tmp (tmpName slot), o.val])
 
 /-- `funclabel(f, b)`: the current block ends with the jump set so far (or falls through). -/
 def labelItem (c : SCtx) (l : String) : Item := .lbl c.jump l []
@@ -190,10 +204,10 @@ def funcstmt (cs : Bool) : (brk cont : String) → Stmt → SCtx → SOut
     -- decl.c: the initialiser is parsed, then `funcinit`: `funcalloc`, then `funcexpr`, `funcstore`
     let c1 : SCtx := ⟨c.lastid + 1, c.blockid, c.cur, c.jump, c.slots ++ [c.lastid + 1]⟩
     match init with
-    | none => ⟨[], [allocIns t (c.lastid + 1)], c1, [], none⟩
+    | none => ⟨[], [allocIns (t, 1) (c.lastid + 1)], c1, [], none⟩
     | some e =>
       let oe := lowerE cs c1 e
-      ⟨oe.items ++ [storeIns t oe.val (c.lastid + 1)], [allocIns t (c.lastid + 1)], oe.ctx, [], none⟩
+      ⟨oe.items ++ [storeIns t oe.val (c.lastid + 1)], [allocIns (t, 1) (c.lastid + 1)], oe.ctx, [], none⟩
   | _, _, .assign i t e, c =>
     -- EXPRASSIGN: r = funcexpr(r); funclval(l) emits nothing for an identifier; funcstore
     let oe := lowerE cs c e
@@ -305,6 +319,23 @@ def funcstmt (cs : Bool) : (brk cont : String) → Stmt → SCtx → SOut
       let ov : Out := if t = rt then ⟨[], .tmp res, c1⟩ else convert cs c1 t rt (.tmp res)
       ⟨(funcopen c).1 ++ la.1 ++ [callIns] ++ ov.items ++ [storeIns t ov.val (c.slots.getD i 0)], [],
         c0.upd ov.ctx, [], none⟩
+  | _, _, .adecl _ t n _, c =>
+    ⟨[], [allocIns (t, n) (c.lastid + 1)],
+      ⟨c.lastid + 1, c.blockid, c.cur, c.jump, c.slots ++ [c.lastid + 1]⟩, [], none⟩
+  | _, _, .aload dst dt arr t _ _ idx, c =>
+    -- EXPRASSIGN: r = funcexpr(cast?(*(off + &a))): the address, funcload, convert; then funcstore to `x`
+    let c0 := (funcopen c).2
+    let oa := lowerAddr cs c0.slots c0.ctx (c.slots.getD arr 0) t idx
+    let ol := funcinst oa.ctx (.load (loadOf cs t)) (cls t) [oa.val]
+    let ov : Out := if dt = t then ⟨[], ol.val, ol.ctx⟩ else convert cs ol.ctx dt t ol.val
+    ⟨(funcopen c).1 ++ oa.items ++ ol.items ++ ov.items ++ [storeIns dt ov.val (c.slots.getD dst 0)], [],
+      c0.upd ov.ctx, [], none⟩
+  | _, _, .astore arr t _ _ idx e, c =>
+    -- EXPRASSIGN: r = funcexpr(e); funclval(*(off + &a)) = funcexpr of the pointer; funcstore
+    let oe := lowerE cs c e
+    let oa := lowerAddr cs oe.ctx.slots oe.ctx.ctx (c.slots.getD arr 0) t idx
+    ⟨oe.items ++ oa.items ++ [.ins (.op none (.store (storeOf t)) [oe.val, oa.val])], [],
+      oe.ctx.upd oa.ctx, [], none⟩
   | _, cont, .switch_ e b, c =>
     -- b[0] = mkblock("switch_cond"); b[1] = mkblock("switch_join"); v = funcexpr(f, e); funcjmp(f, b[0]);
     -- body with breaklabel = b[1]; funcjmp(f, b[1]); funclabel(f, b[0]); funcswitch; funclabel(f, b[1])
